@@ -37,6 +37,24 @@ static int harness_clock_gettime(clockid_t id, struct timespec* ts) {
     ts->tv_nsec = (long)h_clock_nsec;
     return 0;
 }
+/* ---- interposed gettimeofday / getrusage (the fallback-timer configuration -DWASI_FALLBACK_TIMERS_ENABLED=1) ---- */
+#include <sys/time.h>
+#include <sys/resource.h>
+static int h_tv_fake = 0; static long long h_tv_sec = 0, h_tv_usec = 0; static const char* h_tv_last = "none"; static int h_tv_calls = 0;
+static int harness_gettimeofday(struct timeval* tv, void* tz) {
+    h_tv_last = "gettimeofday"; h_tv_calls++;
+    if (!h_tv_fake) return gettimeofday(tv, tz);
+    tv->tv_sec = (time_t)h_tv_sec; tv->tv_usec = (suseconds_t)h_tv_usec;
+    return 0;
+}
+static int harness_getrusage(int who, struct rusage* ru) {
+    h_tv_last = "getrusage"; h_tv_calls++;
+    if (!h_tv_fake) return getrusage(who, ru);
+    memset(ru, 0, sizeof *ru);
+    ru->ru_utime.tv_sec = (time_t)h_tv_sec; ru->ru_utime.tv_usec = (suseconds_t)h_tv_usec;   /* system time 0 */
+    return 0;
+}
+
 /* ---- schedule control for thread-spawn: "the new thread runs to completion before pthread_create returns"
  * (a legal schedule): the thread has then freed its ThreadStartArg block; ASan reports any later read of it ---- */
 static int h_child_first = 0;
@@ -46,10 +64,17 @@ static int harness_pthread_create(pthread_t* t, const pthread_attr_t* a, void* (
     return r;
 }
 #define clock_gettime harness_clock_gettime
+#define gettimeofday harness_gettimeofday
+#define getrusage harness_getrusage
 #define pthread_create harness_pthread_create
 #include "wasi.c"
 #undef clock_gettime
+#undef gettimeofday
+#undef getrusage
 #undef pthread_create
+#ifndef WASI_FALLBACK_TIMERS_ENABLED
+#define WASI_FALLBACK_TIMERS_ENABLED 0
+#endif
 
 static wasmMemory gmem;
 wasmMemory* wasiMemory(void* instance) { (void)instance; return &gmem; }
@@ -370,6 +395,21 @@ int main(void) {
             if (res == 0) printf("0 %lld %s\n", (long long)v, nm); else printf("%u - %s\n", res, nm);
             mem_free();
 
+        } else if (strcmp(tok[0], "clockconfig") == 0) {
+            printf("%s\n", WASI_FALLBACK_TIMERS_ENABLED ? "fallback" : "posix");
+
+        } else if (strcmp(tok[0], "clockfb") == 0 && nt == 4) {      /* clockfb id sec usec -> errno value hostCall (interposed gettimeofday / getrusage) */
+            U32 res; I64 v;
+            h_tv_fake = 1; h_tv_sec = strtoll(tok[2], NULL, 10); h_tv_usec = strtoll(tok[3], NULL, 10); h_tv_last = "none"; h_tv_calls = 0;
+            h_clock_calls = 0;
+            mem_new(8, 0xAA);
+            res = wasi_snapshot_preview1__clock_time_get(NULL, (U32)strtoul(tok[1], NULL, 10), 1, 0);
+            memcpy(&v, gmem.data, 8);
+            h_tv_fake = 0;
+            if (res == 0) printf("0 %lld %s\n", (long long)v, h_clock_calls ? "clock_gettime" : h_tv_calls == 1 ? h_tv_last : "several");
+            else printf("%u - %s\n", res, h_tv_calls || h_clock_calls ? "called" : "none");
+            mem_free();
+
         } else if (strcmp(tok[0], "clockhist") == 0 && nt == 5) {
             /* clockhist abi n idlist preclist : n clock_time_get calls cycling through the ids and precisions
                (comma lists), each bracketed by direct readings of the host clock the SPECIFICATION names for the
@@ -385,12 +425,30 @@ int main(void) {
             for (i = 0; i < n; i++) {
                 U32 id = ids[i % nid], res; U64 pr = precs[i % np]; I64 v = 0;
                 struct timespec t0 = {0, 0}, t1 = {0, 0};
+                long long b0 = 0, b1 = 0;
+#if WASI_FALLBACK_TIMERS_ENABLED
+                /* fallback configuration: id 0 = gettimeofday (the realtime clock at microsecond resolution: bracket =
+                   CLOCK_REALTIME readings, the earlier one rounded DOWN to its microsecond), id 2 = getrusage user+system
+                   (bracket = the same host call before/after) */
+                struct rusage r0, r1;
+                if (id == 0) clock_gettime(CLOCK_REALTIME, &t0);
+                if (id == 2) getrusage(RUSAGE_SELF, &r0);
+                res = abi ? wasi_snapshot_preview1__clock_time_get(NULL, id, pr, 0) : wasi_unstable__clock_time_get(NULL, id, pr, 0);
+                if (id == 0) clock_gettime(CLOCK_REALTIME, &t1);
+                if (id == 2) getrusage(RUSAGE_SELF, &r1);
+                if (id == 0) { b0 = ((long long)t0.tv_sec * 1000000000LL + t0.tv_nsec) / 1000 * 1000; b1 = (long long)t1.tv_sec * 1000000000LL + t1.tv_nsec; }
+                if (id == 2) {
+                    b0 = ((long long)r0.ru_utime.tv_sec + r0.ru_stime.tv_sec) * 1000000000LL + ((long long)r0.ru_utime.tv_usec + r0.ru_stime.tv_usec) * 1000LL;
+                    b1 = ((long long)r1.ru_utime.tv_sec + r1.ru_stime.tv_sec) * 1000000000LL + ((long long)r1.ru_utime.tv_usec + r1.ru_stime.tv_usec) * 1000LL;
+                }
+#else
                 if (id < 4) clock_gettime(native[id], &t0);
                 res = abi ? wasi_snapshot_preview1__clock_time_get(NULL, id, pr, 0) : wasi_unstable__clock_time_get(NULL, id, pr, 0);
                 if (id < 4) clock_gettime(native[id], &t1);
+                b0 = (long long)t0.tv_sec * 1000000000LL + t0.tv_nsec; b1 = (long long)t1.tv_sec * 1000000000LL + t1.tv_nsec;
+#endif
                 memcpy(&v, gmem.data, 8);
-                printf("%s%u:%lld:%lld:%lld", i ? " " : "", res, (long long)v,
-                       (long long)t0.tv_sec * 1000000000LL + t0.tv_nsec, (long long)t1.tv_sec * 1000000000LL + t1.tv_nsec);
+                printf("%s%u:%lld:%lld:%lld", i ? " " : "", res, (long long)v, b0, b1);
             }
             printf("\n");
             mem_free();
@@ -444,8 +502,8 @@ int main(void) {
             waitpid(pid, &st, 0);
             if (WIFEXITED(st)) printf("exited %d\n", WEXITSTATUS(st)); else printf("signaled %d\n", WTERMSIG(st));
 
-        } else if (strcmp(tok[0], "spawn") == 0 && nt == 4) {        /* spawn threads per hasExport (in a forked child: fresh counter) */
-            int nth = atoi(tok[1]), per = atoi(tok[2]), has = atoi(tok[3]);
+        } else if (strcmp(tok[0], "spawn") == 0 && (nt == 4 || nt == 5)) {        /* spawn threads per hasExport [childFirst] (in a forked child: fresh counter) */
+            int nth = atoi(tok[1]), per = atoi(tok[2]), has = atoi(tok[3]), cfirst = nt == 5 ? atoi(tok[4]) : 0;
             pid_t pid; int st = 0;
             fflush(stdout);
             pid = fork();
@@ -454,6 +512,7 @@ int main(void) {
                 StubInstance inst; pthread_t th[64]; SpawnerArg sa[64]; int i, j, tries;
                 U32* all = (U32*)malloc(sizeof(U32) * (size_t)(nth * per + 1));
                 int nall = 0, nneg = 0;
+                h_child_first = cfirst;                 /* schedule: every new thread finishes before its spawner continues */
                 memset(&inst, 0, sizeof inst);
                 exps[0].func = (wasmFunc)stubOther; exps[0].name = (char*)"_start";
                 if (has) { exps[1].func = (wasmFunc)stubThreadStart; exps[1].name = (char*)"wasi_thread_start"; exps[2].func = NULL; exps[2].name = NULL; }
@@ -571,13 +630,13 @@ int main(void) {
             printf("%u\n", res);
             mem_free(); free(a);
 
-        } else if (strcmp(tok[0], "stat") == 0 && nt == 4) {          /* stat fd availhex len -> errno filetype size frameOK */
+        } else if (strcmp(tok[0], "stat") == 0 && (nt == 4 || nt == 5)) {          /* stat fd availhex len [lookupFlags] -> errno filetype size frameOK */
             size_t al, i; unsigned char* a = unhex(tok[2], &al, 0);
             U32 fd = (U32)strtoul(tok[1], NULL, 10), len = (U32)strtoul(tok[3], NULL, 10), res;
             U64 size = 0; int frame = 1;
             /* [0,8) guard | [8,72) filestat | [72,80) guard | path */
             mem_new(80 + al, 0xAA); memcpy(gmem.data + 80, a, al);
-            res = wasi_snapshot_preview1__path_filestat_get(NULL, fd, 0, 80, len, 8);
+            res = wasi_snapshot_preview1__path_filestat_get(NULL, fd, nt == 5 ? (U32)strtoul(tok[4], NULL, 10) : 0, 80, len, 8);
             memcpy(&size, gmem.data + 8 + 32, 8);
             for (i = 0; i < 8; i++) if (gmem.data[i] != 0xAA || gmem.data[72 + i] != 0xAA) frame = 0;
             if (memcmp(gmem.data + 80, a, al) != 0) frame = 0;
